@@ -9,6 +9,7 @@ import (
 	"strings"
 
 	"github.com/nuetzliches/hookaido/internal/queue"
+	"github.com/nuetzliches/hookaido/internal/verifhook"
 )
 
 type Server struct {
@@ -59,6 +60,7 @@ func (s *Server) ServeHTTP(w http.ResponseWriter, r *http.Request) {
 		s.observeReject("", http.StatusNotFound, "not_found")
 		return
 	}
+	verifhook.Point("ingress.after_resolve")
 
 	if s.AllowRequestFor != nil && !s.AllowRequestFor(route) {
 		w.WriteHeader(http.StatusTooManyRequests)
@@ -171,6 +173,9 @@ func (s *Server) ServeHTTP(w http.ResponseWriter, r *http.Request) {
 
 	enqueued := 0
 	for _, target := range targets {
+		if enqueued > 0 {
+			verifhook.Point("ingress.fanout.between")
+		}
 		env.Target = target
 		if err := s.Store.Enqueue(env); err != nil {
 			w.WriteHeader(http.StatusServiceUnavailable)
@@ -187,6 +192,7 @@ func (s *Server) ServeHTTP(w http.ResponseWriter, r *http.Request) {
 		}
 		enqueued++
 	}
+	verifhook.Point("ingress.before_ack")
 
 	w.Header().Set("Content-Type", "application/json")
 	w.WriteHeader(http.StatusAccepted)
